@@ -5,6 +5,7 @@ in document order); otherwise OrAndAndOnSameLevel exactly when an AND-like opera
 direct operand or vice versa (after flattening chains of one operator; implicit = configured default); otherwise no
 exception at all (the query is translated)."""
 import itertools
+import zlib
 
 from common import read_payload, emit, pmap, classify
 import es_corpus
@@ -35,11 +36,15 @@ for default in ("".join(["sho", "uld"]), "".join(["mu", "st"])):      # equal to
     for nested in (None, {"n": ["x", "y"]}, {"n": {"x": None, "y": None, "m": ["z"]}}, {"n": {"m": ["z"]}}):
         for objs, subs in ((None, None), (["o.x"], None), (["o.x"], ["t.raw"]), ({"o": ["x"]}, ["t.raw", "n.x.raw"]),
                            (["o.x"], []), ([], ["t.raw"]), ([], []), ({}, ()),      # declared but empty is not `undeclared`
-                           (ONESHOT(["o.x"]), ONESHOT(["t.raw"])), (ONESHOT(["o.x"]), None)):      # any iterable of names is accepted
+                           (ONESHOT(["o.x"]), ONESHOT(["t.raw"])), (ONESHOT(["o.x"]), None),      # any iterable of names is accepted
+                           # dict specs with the same top-level names and different contents (several builders live in one process)
+                           ({"o": ["y"]}, ["t.raw"]), ({"o": {"x": None, "p": ["q"]}}, ["t.raw"]), ({"o": ["x"], "t": ["k"]}, {"t": ["raw"]})):
             CONFIGS.append({"default_operator": default, "nested_fields": nested, "object_fields": objs, "sub_fields": subs})
 
 EXTRA = ["o:c", "n:d", "o.y:c", "t.raw:b", "n:(m:g)", "n.m:g", "o:(x:c)", "o:(y:c)", "q.r:s", "n:(x:d OR z)", "n.x.raw:d",
-         "o:[1 TO 2]", "n:\"p q\"", "n:(x:[1 TO 2])", "o.x:c~2", "-1", "t:[-1 TO 5]", "n:d^2", "(o:c)", "NOT n:d"]
+         "o:[1 TO 2]", "n:\"p q\"", "n:(x:[1 TO 2])", "o.x:c~2", "-1", "t:[-1 TO 5]", "n:d^2", "(o:c)", "NOT n:d",
+         # texts that mean something to str.format / %: they are data
+         "o:\"{x}\"", "n:\"a {} b\"", "n:a\\{1\\}", "o:\"%s %(x)s\"", "n:(m:\"{0}\")", "q.r:\"}\"", "o.p:\"{\"", "o.p.q:x", "o:(p:(q:x))", "t.k:v", "t:(raw:v)"]
 
 
 def queries(max_leaves):
@@ -56,9 +61,29 @@ def queries(max_leaves):
     return list(dict.fromkeys(out))
 
 
+ALWAYS_LONE = ("a OR b", "a AND b", "a b", "a OR b OR c", "a AND b AND c", "n.x:d OR a", "a OR NOT b", "t:b AND a")
+EVERY_LONE = 8
+
+
+def trees_for(q):
+    """the C05 variants, plus the tree as the only operand of a hand-built operation (operations are n-ary, n >= 1 when built by hand
+    or left by a transformer): an operation directly inside is then an un-parenthesised operand of the wrapper"""
+    from luqum import tree as T
+    out = list(es_corpus.trees_for(q))
+    base = out[0][1]
+    if isinstance(base, T.BaseOperation) and (q in ALWAYS_LONE or EVERY_LONE == 1 or zlib.crc32(q.encode()) % EVERY_LONE == 0):
+        for name, cls in (("And", T.AndOperation), ("Or", T.OrOperation), ("Unknown", T.UnknownOperation)):
+            out.append(("lone operand of " + name, cls(parser.parse(q))))
+        out.append(("lone operand of And of And", T.AndOperation(T.AndOperation(parser.parse(q)))))
+        out.append(("lone operand of Or, beside a word", T.AndOperation(T.Word("w"), T.Group(T.OrOperation(parser.parse(q))))))
+    return out
+
+
 def expected(t, cfgd):
     cfgd = {k: (list(v) if isinstance(v, ONESHOT) else v) for k, v in cfgd.items()}
-    cfg = {"nested_fields": cfgd["nested_fields"], "sub_fields": set(cfgd["sub_fields"]) if cfgd["sub_fields"] is not None else None,
+    cfg = {"nested_fields": cfgd["nested_fields"],
+           "sub_fields": (R.spec_paths(cfgd["sub_fields"]) if isinstance(cfgd["sub_fields"], dict) else set(cfgd["sub_fields"]))
+           if cfgd["sub_fields"] is not None else None,
            "object_fields": (R.spec_paths(cfgd["object_fields"]) if isinstance(cfgd["object_fields"], dict) else set(cfgd["object_fields"]))
            if cfgd["object_fields"] is not None else None}
     m = R.container_misuse(t, cfg)
@@ -78,7 +103,7 @@ def check(item):
         return 0, []
     fails = []
     n = 0
-    for kind, t in es_corpus.trees_for(q):
+    for kind, t in trees_for(q):
         n += 1
         exp = expected(t, cfgd)
         try:
@@ -96,8 +121,13 @@ def check(item):
 
 def main():
     p = read_payload()
+    global EVERY_LONE
+    EVERY_LONE = int(p.get("lone_every", 8))
     qs = queries(p["max_leaves"])
-    items = [(q, ci) for q in qs for ci in range(len(CONFIGS))]
+    qs += [q for q in ALWAYS_LONE if q not in qs]
+    # the dict-spec variants differ from the others only in what they declare below `o` and `t`: paired with the queries that name those
+    late = {ci for ci, c in enumerate(CONFIGS) if isinstance(c["object_fields"], dict) and set(c["object_fields"]) != {"o"} or c["object_fields"] in ({"o": ["y"]}, {"o": {"x": None, "p": ["q"]}})}
+    items = [(q, ci) for q in qs for ci in range(len(CONFIGS)) if ci not in late or "o" in q or "t." in q or "t:" in q]
     res = pmap(check, items)
     failures = [f for r in res for f in r[1]]
     rest, hit = classify(failures, p.get("known", []))
